@@ -43,8 +43,8 @@ VARIABLES
     resv,     \* reservations made through ClientConn.ReserveNewRequest and not yet used
     lowm,     \* the lowest limit in force since the last event that wakes queued requests (a stream finished, PING ack)
     doomed,   \* open streams the client has a reason to reset (cancel, closed body, GOAWAY > last)
-    own,      \* [Conns -> [stream id -> request]]
-    req,      \* [Reqs -> [st, c, s, body, direct, may]]
+    own,      \* [Conns -> [stream id -> [r: request, n: DATA bytes the client has written on the stream]]]
+    req,      \* [Reqs -> [st, c, s, body, len, direct, may]]   (len: total length of the request body)
     dev       \* named deviations of the real code that were observed (known findings), see Quiesce
 
 connVars == <<cst, lastId, open, cend, send, fresh, freshLo, pr, blocked, dnr, maxc, ga, resv, lowm, doomed, own>>
@@ -58,11 +58,12 @@ EmptyF == [x \in {} |-> 0]
 Count(c) == Cardinality(open[c]) + pr[c]
 MayOpen(c) == cst[c] = "up" /\ ~ga[c].on
 Usable(c) == MayOpen(c) /\ ~dnr[c]
-OwnerOf(c, s) == IF s \in DOMAIN own[c] THEN own[c][s] ELSE 0
+OwnerOf(c, s) == IF s \in DOMAIN own[c] THEN own[c][s].r ELSE 0
+Pat(r, o) == (o * 7 + r * 13) % 251            \* byte at offset o of the body of request r
 Current(r, c, s) == r \in Reqs /\ req[r].c = c /\ req[r].s = s     \* (c,s) is r's latest attempt
 InFlight(r, c, s) == Current(r, c, s) /\ req[r].st = "open"        \* ... and RoundTrip has not returned
 
-ReqNew == [st |-> "new", c |-> 0, s |-> 0, body |-> "none", direct |-> 0, may |-> {}]
+ReqNew == [st |-> "new", c |-> 0, s |-> 0, body |-> "none", len |-> 0, direct |-> 0, may |-> {}]
 Fin(q, kinds) == [q EXCEPT !.st = "fin", !.may = kinds]            \* RoundTrip must return, with one of kinds
 Back(q, kinds) == [q EXCEPT !.st = "wait", !.may = kinds]          \* retry (or, if kinds # {}, return one of them now)
 
@@ -87,15 +88,15 @@ NoDrop == UNCHANGED <<open, lowm, doomed>>
 
 -----------------------------------------------------------------------------
 (* ---------------- application ---------------- *)
-Start(r, b) ==
+Start(r, b, len) ==
     /\ r \in Reqs /\ req[r].st = "new"
-    /\ req' = [req EXCEPT ![r] = [ReqNew EXCEPT !.st = "wait", !.body = b]]
+    /\ req' = [req EXCEPT ![r] = [ReqNew EXCEPT !.st = "wait", !.body = b, !.len = len]]
     /\ UNCHANGED <<strict, dev, connVars>>
 
 (* ClientConn.RoundTrip called directly on connection c; it uses up one reservation *)
-StartOn(r, c, b) ==
+StartOn(r, c, b, len) ==
     /\ r \in Reqs /\ c \in Conns /\ req[r].st = "new" /\ cst[c] # "none"
-    /\ req' = [req EXCEPT ![r] = [ReqNew EXCEPT !.st = "wait", !.body = b, !.direct = c]]
+    /\ req' = [req EXCEPT ![r] = [ReqNew EXCEPT !.st = "wait", !.body = b, !.len = len, !.direct = c]]
     /\ resv' = [resv EXCEPT ![c] = IF @ > 0 THEN @ - 1 ELSE 0]
     /\ UNCHANGED <<strict, dev, cst, lastId, open, cend, send, fresh, freshLo, pr, blocked, dnr, maxc, ga, lowm, doomed, own>>
 
@@ -220,21 +221,31 @@ Hdr(c, s, r, es) ==
     /\ req[r].direct \in {0, c}
     /\ s \notin DOMAIN own[c]
     /\ J18 => ~ga[c].on                      \* C18: no new stream after GOAWAY
+    /\ (J18 /\ es) => req[r].len = 0          \* C18: END_STREAM on HEADERS only without a body
     /\ J17 => /\ s % 2 = 1 /\ s > lastId[c]  \* C17: odd, strictly increasing in wire order
               /\ Count(c) + (IF strict THEN 0 ELSE resv[c]) < maxc[c]      \* C17: room under the limit
     /\ lastId' = [lastId EXCEPT ![c] = IF s > @ THEN s ELSE @]
     /\ open' = [open EXCEPT ![c] = @ \cup {s}]
     /\ cend' = [cend EXCEPT ![c] = IF es THEN @ \cup {s} ELSE @]
     /\ fresh' = [fresh EXCEPT ![c] = @ \cup {s}] /\ freshLo' = [freshLo EXCEPT ![c] = @ \cup {s}]
-    /\ own' = [own EXCEPT ![c] = (s :> r) @@ @]
+    /\ own' = [own EXCEPT ![c] = (s :> [r |-> r, n |-> 0]) @@ @]
     /\ req' = [req EXCEPT ![r] = [@ EXCEPT !.st = "open", !.c = c, !.s = s, !.may = {}]]
     /\ UNCHANGED <<strict, dev, cst, send, pr, blocked, dnr, maxc, ga, resv, lowm, doomed>>
 
-Data(c, s, es) ==
+(* DATA of n bytes (first byte b0, last byte b1).  C18 "not lost": every attempt of a request,  *)
+(* first or retried, carries the request body from its first byte (position-dependent pattern)  *)
+(* and may end the stream only after the complete body; so a retry that resumes a partly        *)
+(* consumed one-shot body (truncated request) is not a step.                                     *)
+Data(c, s, n, es, b0, b1) ==
     /\ c \in Conns /\ s \in DOMAIN own[c]
+    /\ LET r == own[c][s].r  off == own[c][s].n IN
+       J18 => /\ off + n <= req[r].len
+              /\ n > 0 => (b0 = Pat(r, off) /\ b1 = Pat(r, off + n - 1))
+              /\ es => off + n = req[r].len
+    /\ own' = [own EXCEPT ![c][s].n = @ + n]
     /\ cend' = [cend EXCEPT ![c] = IF es THEN @ \cup {s} ELSE @]
     /\ IF es /\ s \in open[c] /\ s \in send[c] THEN Drop(c, {s}) ELSE NoDrop
-    /\ UNCHANGED <<strict, dev, cst, lastId, send, fresh, freshLo, pr, blocked, dnr, maxc, ga, resv, own, req>>
+    /\ UNCHANGED <<strict, dev, cst, lastId, send, fresh, freshLo, pr, blocked, dnr, maxc, ga, resv, req>>
 
 (* RST_STREAM from the client.  A CANCEL (8) reset of a request the server has not answered in  *)
 (* any way keeps its concurrency slot until a PING ack ("pending reset").                        *)
@@ -314,14 +325,17 @@ NextFree(c) == lastId[c] + (IF lastId[c] = 0 THEN 1 ELSE 2)
 ClientStep ==
     \/ \E c \in Conns : Dial(c) /\ \E r \in Waiting : req[r].direct = 0
     \/ \E c \in Conns, r \in Reqs : NextFree(c) <= MCIds /\ Hdr(c, NextFree(c), r, req[r].body = "none")
-    \/ \E c \in Conns : \E s \in open[c] \ cend[c] : Data(c, s, TRUE)
+    \/ \E c \in Conns : \E s \in open[c] \ cend[c] :
+          LET r == own[c][s].r  off == own[c][s].n  n == req[r].len - off IN
+          Data(c, s, n, TRUE, Pat(r, off), Pat(r, off + n - 1))
     \/ \E c \in Conns : \E s \in doomed[c] : \E code \in {8} : Rst(c, s, code)
     \/ \E r \in Reqs : \E k \in req[r].may \cup {"unusable"} : Ret(r, k)
     \/ \E c \in Conns : (ga[c].on \/ dnr[c] \/ cst[c] = "closed") /\ open[c] = {} /\ cst[c] = "up" /\ CClosed(c)
 
 On(x) == x \in MCEnv
+BodyLen(b) == IF b = "none" THEN 0 ELSE 2
 EnvStep ==
-    \/ \E r \in Reqs, b \in MCBodies : (\A q \in Reqs : q < r => req[q].st # "new") /\ Start(r, b)
+    \/ \E r \in Reqs, b \in MCBodies : (\A q \in Reqs : q < r => req[q].st # "new") /\ Start(r, b, BodyLen(b))
     \/ On("cancel") /\ \E r \in Reqs : Cancel(r) /\ req[r].st # "done"
     \/ On("closebody") /\ \E r \in Reqs : CloseBody(r) /\ req[r].c \in Conns /\ req[r].s \in open[req[r].c]
     \/ On("settings") /\ \E c \in Conns, m \in MCMax : Settings(c, m) /\ m # maxc[c]
@@ -358,7 +372,7 @@ GrowWithinLimit == [][\A c \in Conns : (cst'[c] = "up" /\ Cardinality(open'[c]) 
 (* C18: a request believed in flight has exactly its one live stream; no second copy anywhere *)
 InFlightIsLive == \A r \in Reqs : req[r].st = "open" => req[r].s \in open[req[r].c] \ doomed[req[r].c]
 NoSecondCopy == \A r \in Reqs :
-    Cardinality({cs \in {<<c, s>> : c \in Conns, s \in Ids} : cs[2] \in open[cs[1]] \ doomed[cs[1]] /\ own[cs[1]][cs[2]] = r /\ req[r].st # "done"}) <= 1
+    Cardinality({cs \in {<<c, s>> : c \in Conns, s \in Ids} : cs[2] \in open[cs[1]] \ doomed[cs[1]] /\ own[cs[1]][cs[2]].r = r /\ req[r].st # "done"}) <= 1
 (* C18: after GOAWAY no stream is opened on that connection *)
 QuietAfterGoAway == [][\A c \in Conns : ga[c].on => lastId'[c] = lastId[c]]_vars
 IncreasingIds == [][\A c \in Conns : lastId'[c] >= lastId[c]]_vars
